@@ -274,9 +274,169 @@ def validate(chk: Check, records: List[dict], name: str, batch: int = 300):
     return verdicts
 
 
-def key_of(engine: str, kind: str, clauses) -> dict:
-    return {"engine_family": "native" if engine.startswith("native") else engine.split("-")[0], "kind": kind,
-            "clauses": ",".join(sorted(clauses))}
+# ---- (C) real interrupts into periodic programs ----------------------------------------------------
+def gen_periodic(rng: random.Random, w: int) -> dict:
+    """a non-terminating program: a ring of ops that flip data bits, sometimes print, sometimes toggle another op's jump target"""
+    dw = 2 * w
+    lg2dw = dw.bit_length() - 1
+    L = rng.randrange(3, 9)
+    nd = 4
+    first, nops = 2, 2 + L
+    nwords = 2 * nops + nd
+    words = [0] * nwords
+    data_bit0 = 2 * nops * w
+
+    def target(k):
+        return (first + k % L) * dw
+
+    words[0] = data_bit0 + rng.randrange(nd * w)
+    words[1] = target(0)
+    for k in range(L):
+        r = rng.random()
+        if r < 0.2:
+            f = dw + rng.randrange(2)                              # an output op
+        elif r < 0.3:
+            o = first + rng.randrange(L)
+            f = (2 * o + 1) * w + lg2dw                            # toggle the jump target of op o between neighbours
+        else:
+            f = data_bit0 + rng.randrange(nd * w)
+        words[2 * (first + k)] = f
+        words[2 * (first + k) + 1] = target(k + 1) if rng.random() < 0.85 else target(rng.randrange(L))
+    return {"w": w, "words": words, "version": rng.randrange(4)}
+
+
+def _run_periodic(args):
+    idx, case, plan = args
+    fjm_run = par.fjm_run()
+    w, words = case["w"], case["words"]
+    d = Path(tempfile.mkdtemp(prefix="fjv_c18p_"))
+    recs = []
+    try:
+        path = d / "p.fjm"
+        segs = [(0, len(words), words)]
+        try:
+            engines.write_image(path, w, case["version"], segs)
+        except Exception as e:  # noqa: BLE001
+            return {"skipped": f"writer: {type(e).__name__}"}
+        with contextlib.redirect_stdout(io.StringIO()):
+            try:
+                st = fjm_run.run(path, io_device=engines.make_device([]), breakpoint_handler=c01._Cut(400))
+            except Exception as e:  # noqa: BLE001
+                return {"skipped": f"prescreen: {type(e).__name__}"}
+        if int(st.termination_cause) != 6:
+            return {"skipped": "halts"}
+        addrs = list(range(len(words)))
+        base = {"w": w, "segs": [[nb(0, AW), nb(len(words), AW)]], "data": [[nb(i, AW), nb(v, w // 8)] for i, v in enumerate(words) if v],
+                "maxsteps": 260}
+        for en, budget, ring in plan:
+            obs = engines.run_engine(fjm_run, path, en, [], w=w, mem_addrs=addrs, budget_s=budget, ring_len=ring)
+            r = dict(base)
+            hist = obs.get("hist")
+            has = hist is not None and bool(engines.engine_knobs(en).get("ring"))
+            r.update(ring=ring, engine=en, case=idx, budget=budget, raw={k: obs.get(k) for k in ("cause", "exc", "budget_fired", "memread_exc")},
+                     obs={"ops": obs["ops"], "mem": obs["mem"], "hashist": has, "hist": hist if has else [],
+                          "nout": len(obs["out"]), "tail": list(obs["out"][-16:])})
+            recs.append(r)
+    finally:
+        shutil.rmtree(d, ignore_errors=True)
+    return {"recs": recs}
+
+
+PERIODIC_CFG = "SPECIFICATION Spec\nCONSTRAINT Verdict\nCHECK_DEADLOCK FALSE\n"
+
+
+def validate_periodic(chk: Check, records: List[dict], name: str, batch: int = 40):
+    scratch = Path(tempfile.mkdtemp(prefix="fjv_c18q_"))
+    verdicts: Dict[int, dict] = {}
+    try:
+        jobs, offs = [], []
+        for b0 in range(0, len(records), batch):
+            part = [{k: r[k] for k in ("w", "segs", "data", "maxsteps", "ring", "obs")} for r in records[b0:b0 + batch]]
+            f = scratch / f"b{b0}.json"
+            f.write_text(json.dumps(part))
+            jobs.append(dict(module="Trace_FJPeriodic", cfg_text=PERIODIC_CFG, workers=1, env={"TRACE_FILE": str(f)}, timeout=3000))
+            offs.append(b0)
+        for b0, res in zip(offs, tlc.run_many(jobs, parallel=16)):
+            chk.add_tlc(res, f"{name}@{b0}", records=min(batch, len(records) - b0))
+            for v in res.emitted.get("V", []):
+                verdicts[b0 + v["tid"] - 1] = v
+    finally:
+        shutil.rmtree(scratch, ignore_errors=True)
+    chk.configs[:] = c01._squash(chk.configs, name)
+    return verdicts
+
+
+def part_c(chk: Check, so: str, rng: random.Random, quick: bool):
+    ncases = 24 if quick else 200
+    cases = [gen_periodic(rng, [16, 32, 64, 8][i % 4]) for i in range(ncases)]
+    jobs = []
+    for i, c in enumerate(cases):
+        plan = []
+        for en in ENGINES:
+            for _ in range(1 if quick else 3):
+                plan.append((en, rng.choice([0.03, 0.05, 0.08, 0.13]) + rng.random() * 0.01, rng.choice([1, 2, 7, 70])))
+        jobs.append((i, c, plan))
+    outs = par.pmap(_run_periodic, jobs, so_path=so, procs=8, chunksize=1)
+    records, skipped = [], {}
+    for o in outs:
+        if "skipped" in o:
+            skipped[o["skipped"]] = skipped.get(o["skipped"], 0) + 1
+        else:
+            records += o["recs"]
+    # an interrupt that arrives outside the run loop (while the file is loaded, after the loop) is not an interrupt of the run
+    judged = []
+    for r in records:
+        if r["raw"]["cause"] != "kbdint" or not r["raw"]["budget_fired"] or r["obs"]["ops"] < 0 or r["obs"]["ops"] >= 1 << 31:
+            skipped["not-interrupted-in-the-loop:" + str(r["raw"]["cause"])] = skipped.get("not-interrupted-in-the-loop:" + str(r["raw"]["cause"]), 0) + 1
+            continue
+        judged.append(r)
+    verdicts = validate_periodic(chk, judged, "Trace_FJPeriodic")
+    classes: Dict[str, int] = {}
+    for i, rec in enumerate(judged):
+        v = verdicts.get(i)
+        if v is None:
+            raise MachineryFailure(f"no periodic verdict for record {i}")
+        fam = "native" if rec["engine"].startswith("native") else rec["engine"].split("-")[0]
+        classes[f"{fam}:{v['class']}"] = classes.get(f"{fam}:{v['class']}", 0) + 1
+        if v["class"] in ("consistent", "no-period"):
+            continue
+        if v["class"] == "mid-op":
+            key = {"engine_family": fam, "kind": "async-interrupt", "class": "mid-op"}
+        else:
+            key = key_of(rec["engine"], "kbdint", v["fail"], rec["obs"]["hist"])
+        chk.violation(key, f"engine {rec['engine']} (w={rec['w']}) interrupted by a signal after {rec['obs']['ops']} reported ops: {v['class']}, "
+                           f"components not those of the state after that many ops: {v['fail']}; spec says {v['spec']}", {"record": rec, "verdict": v})
+    chk.traces += len(judged)
+    chk.extra["C_programs"] = ncases
+    chk.extra["C_skipped"] = skipped
+    chk.extra["C_records_judged"] = len(judged)
+    chk.extra["C_classes"] = classes
+    if judged:
+        chk.sample({"kind": "real interrupt", "engine": judged[0]["engine"], "w": judged[0]["w"], "reported_ops": judged[0]["obs"]["ops"], "verdict": verdicts[0]})
+    # self-test of the binding: one more op than reported / a flipped memory bit must not be "consistent"
+    good = [r for i, r in enumerate(judged) if verdicts[i]["class"] == "consistent"][:8]
+    mut = []
+    for k, r in enumerate(good):
+        m = json.loads(json.dumps(r))
+        if k % 2 == 0:
+            m["obs"]["ops"] += 1
+        else:
+            m["obs"]["mem"][-1][1][0] ^= 0x10
+        mut.append(m)
+    if mut:
+        mv = validate_periodic(chk, mut, "Trace_FJPeriodic[self-test]")
+        acc = [i for i in range(len(mut)) if mv.get(i, {"class": "x"})["class"] == "consistent"]
+        chk.extra["C_selftest_rejected"] = len(mut) - len(acc)
+        if len(acc) > len(mut) // 2:        # +1 op may coincide with an op that changes nothing observable; a flipped data bit may not
+            raise MachineryFailure("binding self-test: corrupted interrupt observations were accepted")
+
+
+def key_of(engine: str, kind: str, clauses, hist=None) -> dict:
+    k = {"engine_family": "native" if engine.startswith("native") else engine.split("-")[0], "kind": kind,
+         "clauses": ",".join(sorted(clauses))}
+    if "hist" in clauses:
+        k["hist"] = "empty" if hist == [] else "wrong"      # how the last-ops list differs (KF-2 is the EMPTY list only)
+    return k
 
 
 def run(chk: Check, replay=None):
@@ -303,7 +463,7 @@ def run(chk: Check, replay=None):
     chk.sample({"kind": "spec->code stop", "stop": items[0]})
     for bl in bad_lists:
         for b in bl:
-            chk.violation(key_of(b["engine"], b["kind"], [x[0] for x in b["diffs"]]),
+            chk.violation(key_of(b["engine"], b["kind"], [x[0] for x in b["diffs"]], next((x[1] for x in b["diffs"] if x[0] == "hist"), None)),
                           f"engine {b['engine']}, device raising {b['kind']}: differs from the specification in {[x[0] for x in b['diffs']]}", b)
     # (B) generated, judged by TLC
     ncases = 60 if quick else 1200
@@ -325,12 +485,14 @@ def run(chk: Check, replay=None):
         if v is None:
             raise MachineryFailure(f"no verdict for record {i}")
         if v["fail"]:
-            key = key_of(rec["engine"], rec["kind"], v["fail"])
+            key = key_of(rec["engine"], rec["kind"], v["fail"], rec["obs"]["hist"])
             if rec["w"] == 64 and v["spec"].get("topop"):
                 key = {"engine_family": key["engine_family"], "w": 64, "input_class": "w64-op-on-last-word-of-address-space"}
             chk.violation(key,
                           f"engine {rec['engine']} (w={rec['w']}), device raising {rec['kind']} at call {rec['faultAt']}: rejected by Trace_FJFaults, clauses {v['fail']}; spec says {v['spec']}",
                           {"record": rec, "verdict": v})
+    # (C) real interrupts
+    part_c(chk, so, rng, quick)
     # self-test
     good = [r for i, r in enumerate(records) if not verdicts[i]["fail"]][:20]
     mut = []
